@@ -15,32 +15,32 @@ impl DecoderRegistry {
 }
 use vx_error_code_attr::ErrorCode as VxErrorCodeAttrForRegistry;
 //@item stun_rs :: mod attributes > mod stun > fn stun_register_attributes
-//@tags C01 C18 C19 C03
+//@tags C01 C02 C18 C19 C03
 //@sub "registry.register::<ErrorCode>();" => "registry.register::<VxErrorCodeAttrForRegistry>();"
 //@spec
     requires forall|t: u16| #[trigger] old(registry).codes@.contains(t) ==> !is_stun_code(t),
     ensures forall|t: u16| #[trigger] final(registry).codes@.contains(t) <==> old(registry).codes@.contains(t) || is_stun_code(t),
 //@end
 //@item stun_rs :: mod attributes > mod ice > fn ice_register_attributes
-//@tags C01 C18 C19 C03
+//@tags C01 C02 C18 C19 C03
 //@spec
     requires forall|t: u16| #[trigger] old(registry).codes@.contains(t) ==> !is_ice_code(t),
     ensures forall|t: u16| #[trigger] final(registry).codes@.contains(t) <==> old(registry).codes@.contains(t) || is_ice_code(t),
 //@end
 //@item stun_rs :: mod attributes > mod turn > fn turn_register_attributes
-//@tags C01 C18 C19 C03
+//@tags C01 C02 C18 C19 C03
 //@spec
     requires forall|t: u16| #[trigger] old(registry).codes@.contains(t) ==> !is_turn_code(t),
     ensures forall|t: u16| #[trigger] final(registry).codes@.contains(t) <==> old(registry).codes@.contains(t) || is_turn_code(t),
 //@end
 //@item stun_rs :: mod attributes > mod mobility > fn mobility_register_attributes
-//@tags C01 C18 C19 C03
+//@tags C01 C02 C18 C19 C03
 //@spec
     requires forall|t: u16| #[trigger] old(registry).codes@.contains(t) ==> !is_mobility_code(t),
     ensures forall|t: u16| #[trigger] final(registry).codes@.contains(t) <==> old(registry).codes@.contains(t) || is_mobility_code(t),
 //@end
 //@item stun_rs :: mod attributes > mod discovery > fn discovery_register_attributes
-//@tags C01 C18 C19 C03
+//@tags C01 C02 C18 C19 C03
 //@spec
     requires forall|t: u16| #[trigger] old(registry).codes@.contains(t) ==> !is_discovery_code(t),
     ensures forall|t: u16| #[trigger] final(registry).codes@.contains(t) <==> old(registry).codes@.contains(t) || is_discovery_code(t),
@@ -62,7 +62,7 @@ pub open spec fn is_discovery_code(t: u16) -> bool {
 }
 // the lazy_static initialiser of REGISTRY (the function nested in its Deref impl): it cannot panic and registers exactly `registered`
 //@item stun_rs :: mod registry > impl ::lazy_static::__Deref for REGISTRY > fn deref > fn __static_ref_initialize
-//@tags C01 C18 C19 C03
+//@tags C01 C02 C18 C19 C03
 //@spec
     ensures forall|t: u16| #[trigger] r.codes@.contains(t) <==> registered(t),
 //@end
